@@ -211,7 +211,7 @@ func c13Cfgs() []Cfg {
 		for _, sy := range []struct {
 			s   byte
 			bps uint
-		}{{0, 64}, {1, 64}, {2, 1}, {2, 40}, {2, 64}, {2, 1000}} {
+		}{{0, 64}, {1, 64}, {2, 1}, {2, 40}, {2, 64}, {2, 135}, {2, 1000}} { // 135: not below DataFileSize, yet below one oversized record
 			c := defaultCfg
 			c.IO, c.Sync, c.BPS = io, sy.s, sy.bps
 			out = append(out, c)
